@@ -10,7 +10,7 @@ use std::collections::BTreeMap;
 pub struct C10;
 
 /// macro bodies with binder placeholders @B@ (first binder) and @C@ (second binder)
-const MACROS: [(&str, &str); 8] = [
+const MACROS: [(&str, &str); 9] = [
     ("fn m(e) {\n  `{\n    let @B@ = 10.0\n    $e + @B@\n  }\n}\n", "let binder"),
     ("fn m(e) {\n  `{\n    let f = |@B@| $e + @B@\n    f(10.0)\n  }\n}\n", "lambda parameter"),
     ("fn m(e) {\n  `{\n    let (@B@, @C@) = (10.0, 20.0)\n    $e + @B@ + @C@\n  }\n}\n", "tuple pattern"),
@@ -19,6 +19,9 @@ const MACROS: [(&str, &str); 8] = [
     ("fn m(e) {\n  `{\n    $e\n    let @B@ = 10.0\n    $e + @B@\n  }\n}\n", "let binder after an expression statement"),
     ("fn m(e) {\n  `{\n    let first = $e\n    let @B@ = 10.0\n    let @C@ = first + @B@\n    @C@\n  }\n}\n", "several let binders in sequence"),
     ("fn m(e) {\n  `{\n    let @B@ = 10.0\n    let inner = {\n      let @C@ = $e\n      @C@ + @B@\n    }\n    inner\n  }\n}\n", "nested binders around the splice"),
+    // the wrapper idiom: the initialiser of a (non-recursive) let-bound lambda calls the outer function w; when the
+    // binder is itself named w it shadows w only after the let
+    ("fn m(e) {\n  `{\n    let @B@ = |n| if (n > 0.5) w(n - 1.0) + 1.0 else $e\n    @B@(3.0)\n  }\n}\n", "lambda-let whose initialiser calls an outer function"),
 ];
 /// argument expressions (stage-1 code) mentioning every interesting name
 const ARGS: [&str; 9] = ["`t", "`u", "`(t + u)", "`x", "`e", "`g", "`1.0", "`f", "`inner"];
@@ -30,11 +33,11 @@ const SITES: [(&str, &str); 4] = [
     ("fn dsp(x) {\n  let t = 1.0\n  let u = 2.0\n  let e = 3.0\n  let f = 4.0\n  let inner = 5.0\n  m!(@A@) + m!(@A@)\n}\n", "two expansions"),
 ];
 /// names the binders are given: the original colliding names and fresh ones
-const BINDERS: [(&str, &str); 3] = [("t", "u"), ("e", "x"), ("g", "inner")];
+const BINDERS: [(&str, &str); 4] = [("t", "u"), ("e", "x"), ("g", "inner"), ("w", "w2")];
 const FRESH: (&str, &str) = ("zq9", "zq8");
 
 fn program(mi: usize, b: (&str, &str), ai: usize, si: usize) -> String {
-    format!("#stage(macro)\n{}#stage(main)\nlet g = 50.0\n{}", MACROS[mi].0.replace("@B@", b.0).replace("@C@", b.1), SITES[si].0.replace("@A@", ARGS[ai]))
+    format!("fn w(x) {{\n  x * 10.0\n}}\n#stage(macro)\n{}#stage(main)\nlet g = 50.0\n{}", MACROS[mi].0.replace("@B@", b.0).replace("@C@", b.1), SITES[si].0.replace("@A@", ARGS[ai]))
 }
 fn decode(idx: u64) -> (usize, usize, usize, usize) {
     let mut i = idx;
